@@ -52,7 +52,7 @@ class Baton:
     def yield_point(self, tid, where=None):
         self.events += 1
         if self.lines is not None:
-            self.lines.append(where)
+            self.lines.append(where if where is None or tid == 0 else None)  # the sweep pre-empts thread 0 only
         if self.events > MAX_EVENTS:
             self.abort("event budget exceeded")
             raise SystemExit
@@ -286,18 +286,19 @@ def run(program):
             "call_results": None, "results_digest": jhash(events_log[2:4]) if len(events_log) > 3 else None}
 
 
-def _line_sweep(program):
+def _line_sweep(program, runner=None):
     """Single pre-emption at EVERY distinct source line of cola that the first thread's calls execute (first and last
     occurrence): thread 0 runs up to that line, thread 1 then runs its calls to completion, thread 0 resumes.  Systematic where
     the seeded schedules are sparse: a window of one line between two accesses to a shared resource is hit for certain."""
     from .crashenum import _fork_run
+    run_ = runner or run
     base = json.loads(json.dumps(program))
     base["threads"].pop("mode", None)
     cal = json.loads(json.dumps(base))
     cal["threads"].update(sw=[], record_lines=True)
 
     def calibrate():
-        r = run(cal)
+        r = run_(cal)
         r["_lines"] = cal.get("_lines") or []
         return r
 
@@ -315,14 +316,15 @@ def _line_sweep(program):
     cap = base["threads"].get("max_points", 400)
     if len(points) > cap:
         step = len(points) / float(cap)
-        points = sorted({points[int(i * step)] for i in range(cap)})
+        off = (base["threads"].get("point_offset", 0) % max(1, int(step)))
+        points = sorted({points[min(len(points) - 1, int(i * step) + off)] for i in range(cap)})
     stats = Counter(r0["stats"])
     stats["thread_line_sweeps"] = 1
     stats["thread_distinct_lines_preempted"] = len(first)
     for e in points:
         p = json.loads(json.dumps(base))
         p["threads"]["sw"] = [[e, 1]]
-        r = _fork_run(lambda p=p: run(p))
+        r = _fork_run(lambda p=p: run_(p))
         if r.get("status") in ("env_crash", "harness_error") and "stats" not in r:
             r = dict(r, stats={}, violation=None, program=p, events_digest=None)
         for k, v in (r.get("stats") or {}).items():
